@@ -95,6 +95,7 @@ type Outcome struct {
 	Panics  []string
 	Elapsed time.Duration
 	Retries int
+	Dead    []int64 // channel workers that stopped during the run
 }
 
 // tracked: the entry belongs to a sequence the manager tracks (or has no sequence).
@@ -261,6 +262,9 @@ func (s Scenario) Run(from *Snapshot, emitAll bool, actions []Action) Outcome {
 	out.Trace, out.Snaps = e.Trace()
 	e.Stop()
 	out.Err, out.Panics, out.Retries = e.Err, e.Panics(), e.Retries
+	for c := range e.Dead {
+		out.Dead = append(out.Dead, c)
+	}
 	return out
 }
 
